@@ -297,6 +297,12 @@ func (o Op) applyGo(p *bluemonday.Policy) {
 
 func (ps *PolicySpec) buildGo() *bluemonday.Policy {
 	p := bluemonday.NewPolicy()
+	switch ps.Name {
+	case "__ugc":
+		p = bluemonday.UGCPolicy()
+	case "__strict":
+		p = bluemonday.StrictPolicy()
+	}
 	for _, o := range ps.Ops {
 		o.applyGo(p)
 	}
